@@ -137,11 +137,21 @@ TinyOK(e) ==
   /\ e.gota = Len(e.a) /\ e.gotb = Len(e.b)
   /\ e.crc32 /\ e.crc32c /\ e.crc64nvme
 
+\* second operand of e.q * 2^30 + e.d zero bytes; executed length logged as hi * 2^30 + lo
+BigOK(e) ==
+  /\ e.q \in BigQ /\ e.d \in BigD /\ e.lena \in BigLenA /\ e.content \in BigContents
+  /\ e.gota = e.lena
+  /\ e.gothi = (IF e.d >= 0 THEN e.q ELSE e.q - 1)
+  /\ e.gotlo = (IF e.d >= 0 THEN e.d ELSE BigUnit + e.d)
+  /\ (e.q \in Big64Always => e.eval64)
+  /\ e.crc32 /\ e.crc32c /\ (e.eval64 => e.crc64nvme)
+
 Verdict(e) ==
   CASE e.kind = "stream"  -> StreamOK(e)
     [] e.kind = "direct"  -> DirectOK(e)
     [] e.kind = "combine" -> CombineOK(e)
     [] e.kind = "tiny"    -> TinyOK(e)
+    [] e.kind = "bigcombine" -> BigOK(e)
     [] OTHER -> FALSE
 
 \* coverage classes exercised, accumulated by TLC and printed with the last line
@@ -151,6 +161,7 @@ Classes(e) ==
     [] e.kind = "direct"  -> {<<"dsize", e.sizes[i]>> : i \in 1..Len(e.sizes)} \cup {<<"dblocks", NumBlocks(e.written)>>}
     [] e.kind = "combine" -> {<<"lena", e.lena>>, <<"lenb", e.lenb>>, <<"ccontent", e.content>>}
     [] e.kind = "tiny"    -> {<<"tinylen", Len(e.a), Len(e.b)>>}
+    [] e.kind = "bigcombine" -> {<<"bigq", e.q>>, <<"bigd", e.d>>} \cup (IF e.eval64 THEN {<<"big64", e.q>>} ELSE {})
     [] OTHER -> {}
 
 \* every class of the enumerated input space (checked against `seen` at the last line)
@@ -161,6 +172,7 @@ Required ==
   \cup {<<"lena", n>> : n \in CombineLens} \cup {<<"lenb", n>> : n \in CombineLens}
   \cup {<<"ccontent", x>> : x \in CombineContents}
   \cup {<<"tinylen", a, b>> : a \in 0..3, b \in 0..3}
+  \cup {<<"bigq", q>> : q \in BigQ} \cup {<<"bigd", d>> : d \in BigD} \cup {<<"big64", q>> : q \in Big64Always}
 
 KInit == PInit0
 KNext == /\ l <= Len(Trace)
